@@ -115,16 +115,21 @@ impl Device {
             Operation::Elpm => args.is_empty() || self.allow(NoElpmX),
             Operation::Ld | Operation::St | Operation::Ldd | Operation::Std => {
                 args.iter().all(|arg| match arg {
-                    InstructionOps::Index(
-                        IndexOps::None(reg)
-                        | IndexOps::PostIncrement(reg)
-                        | IndexOps::PreDecrement(reg)
-                        | IndexOps::PostIncrementE(reg, _),
-                    ) => match reg {
-                        Reg16::X => self.allow(NoXreg),
-                        Reg16::Y => self.allow(NoYreg),
-                        Reg16::Z => true,
-                    },
+                    InstructionOps::Index(index) => {
+                        let (reg, displacement) = match index {
+                            IndexOps::None(reg)
+                            | IndexOps::PostIncrement(reg)
+                            | IndexOps::PreDecrement(reg) => (reg, false),
+                            IndexOps::PostIncrementE(reg, _) => (reg, true),
+                        };
+                        // a displacement is the ldd/std form, however the mnemonic is written
+                        (!displacement || self.allow(Tiny1x))
+                            && match reg {
+                                Reg16::X => self.allow(NoXreg),
+                                Reg16::Y => self.allow(NoYreg),
+                                Reg16::Z => true,
+                            }
+                    }
                     _ => true,
                 })
             }
